@@ -85,6 +85,8 @@ KindOf(t) == TVer(t).kind
 KeyOf(J, j) == <<J[j].t, ver[J[j].t], J[j].arg, J[j].fk>>
 Key(j) == KeyOf(jobs, j)
 TakesHandle(t) == Tasks[t].h = 1
+\* cache_scope of the task: "BACKEND" (default), "CSE" (this execution only), "NONE" (opted out)
+Scope(t) == Tasks[t].scope
 Fits(t, u) == \A r \in Res : u[r] + Units(t, r) <= Limit(r)
 Kids(j) == {k \in DOMAIN jobs : Len(k) = Len(j) + 1 /\ SubSeq(k, 1, Len(j)) = j}
 Parent(j) == SubSeq(j, 1, Len(j) - 1)
@@ -166,13 +168,13 @@ Preprocessed(j) ==
 
 Exec(j) ==
   LET J == Preprocessed(j) k == KeyOf(J, j) t == jobs[j].t IN
-  IF k \in DOMAIN pend THEN                                           \* Collapse
+  IF Scope(t) # "NONE" /\ k \in DOMAIN pend THEN                      \* Collapse
        /\ Served(J, j, "collapsed", jobs[j].cached, <<>>, pend[k])
        /\ UNCHANGED <<running, pend, used, cse, wf, rootval, submitted, evalTab>>
-  ELSE IF k \in DOMAIN cse THEN                                       \* HitCSE (value or error)
+  ELSE IF Scope(t) # "NONE" /\ k \in DOMAIN cse THEN                  \* HitCSE (value or error)
        /\ Served(J, j, "doneq", "cse", << [ty |-> IF cse[k].ok THEN "done" ELSE "reject", j |-> j] >>, NoTwin)
        /\ UNCHANGED <<running, pend, used, cse, wf, rootval, submitted, evalTab>>
-  ELSE IF CacheAllowed /\ k \in evalTab THEN                          \* HitSingle
+  ELSE IF Scope(t) = "BACKEND" /\ CacheAllowed /\ k \in evalTab THEN   \* HitSingle
        /\ Served(J, j, "doneq", "single", << [ty |-> "done", j |-> j] >>, NoTwin)
        /\ UNCHANGED <<running, pend, used, cse, wf, rootval, submitted, evalTab>>
   ELSE IF mode = "dry" /\ KindOf(t) = "noexec" THEN                   \* dry run, unknown executor: rejected
@@ -195,7 +197,8 @@ Exec(j) ==
   ELSE                                                                \* Submit
        /\ jobs' = [J EXCEPT ![j].ph = "running", ![j].held = TRUE]
        /\ used' = [r \in Res |-> used[r] + Units(t, r)]
-       /\ running' = running \cup {j} /\ pend' = (k :> j) @@ pend
+       /\ running' = running \cup {j}
+       /\ pend' = IF Scope(t) = "NONE" THEN pend ELSE (k :> j) @@ pend   \* (nobody looks it up for NONE)
        /\ submitted' = Append(submitted, k)
        /\ evq' = Tail(evq)
        /\ UNCHANGED <<waiting, cse, wf, rootval, evalTab>>
@@ -377,7 +380,8 @@ HeldOK == \A r \in Res :
             /\ used[r] <= Limit(r)
             /\ used[r] = FoldSet(LAMBDA j, a : a + Units(jobs[j].t, r), 0, Holding)
 \* C06: a key is handed to an executor at most once per execution
-Once == \A i, i2 \in 1..Len(submitted) : submitted[i] = submitted[i2] => i = i2
+Once == \A i, i2 \in 1..Len(submitted) :
+          (submitted[i] = submitted[i2] /\ Scope(submitted[i][1]) # "NONE") => i = i2
 \* C09 (safety form): never quiescent with the workflow pending, except a dry run that stopped
 NoHang == (~DevLostWakeup /\ wf = "pending" /\ mode = "real") => (evq # <<>> \/ running # {})
 \* C09: when a real run returns, everything is settled
